@@ -1,10 +1,12 @@
 #!/bin/bash
-# usage: try_refactor.sh <tag> [pattern]   applies each behaviour-preserving patch to /repo, runs ./check all, prints violated keys (none expected), reverts
+# usage: try_refactor.sh <tag> [pattern]   facts of /repo HEAD + each behaviour-preserving patch (scratch copy), ./check all on them,
+# prints violated keys (none expected). /repo itself is not touched.
 tag=$1; pat=${2:-*}
 cd /verif
 for d in /tmp/refac_$tag/$pat/; do s=$(basename $d)
-  if ! git -C /repo apply --check $d/patch.diff 2>/dev/null; then echo "$s: PATCH-DOES-NOT-APPLY"; continue; fi
-  git -C /repo apply $d/patch.diff; ./check all > /tmp/tryr_$s.log 2>&1; git -C /repo checkout -- .
+  if ! tools/facts_for_patch.sh $d/patch.diff /verif/build/fr_$s.json; then echo "$s: PATCH-DOES-NOT-APPLY-OR-BUILD"; continue; fi
+  ./check all --facts build/fr_$s.json > /tmp/tryr_$s.log 2>&1
+  rm -f build/fr_$s.json build/fr_$s.json.log
   n=$(grep -c "^   violation" /tmp/tryr_$s.log)
   echo "$s: $n false alarm key(s)"; grep "^   violation" /tmp/tryr_$s.log | sed 's/^/      /'
 done
